@@ -1,8 +1,10 @@
 // ttltour: C06 driver on the REAL clock.
-//  (1) -edges: reads the transition table of spec/MC_Expire.tla (commands and Tick steps), picks edges per
-//      (branch label, model second, deadline class), and for each builds the programme  path + command + probes,
-//      where a model Tick is "sleep to the next wall-clock second boundary + 30 ms";
-//  (2) -random N: seeded random ttl programmes with sleeps of 0..1.3 s.
+//
+//	(1) -edges: reads the transition table of spec/MC_Expire.tla (commands and Tick steps), picks edges per
+//	    (branch label, model second, deadline class), and for each builds the programme  path + command + probes,
+//	    where a model Tick is "sleep to the next wall-clock second boundary + 30 ms";
+//	(2) -random N: seeded random ttl programmes with sleeps of 0..1.3 s.
+//
 // All programmes run concurrently, each on its own in-process server, so a tier costs max(ticks) seconds.
 // Every command is logged with the unix second before (now) and after (now2) the call; TraceKs.tla validates.
 package main
@@ -290,6 +292,29 @@ func main() {
 			step{argv: []string{"get", "k"}}, step{argv: []string{"strlen", "j"}}, step{argv: []string{"mget", "k", "j"}}, step{argv: []string{"llen", "l"}},
 			step{argv: []string{"exists", "k", "j", "l"}}, step{argv: []string{"keys", "*"}})
 		progs = append(progs, p)
+	}
+
+	// replaced deadlines: a deadline that is REPLACED - by an earlier one or by a later one - is the one that counts; whatever
+	// was armed for the old one must neither keep the key alive past the new deadline nor remove it before. Every pair of a
+	// command that sets a far deadline and one that sets a near one (and the converse), on a string and on a list, probed
+	// with commands that have no lazy expiry check of their own.
+	if *nRandom > 0 {
+		far := [][]string{{"set", "k", "v", "ex", "100"}, {"setex", "k", "100", "v"}, {"set", "k", "v", "px", "100000"}}
+		near := [][]string{{"expire", "k", "1"}, {"expire", "k", "1", "lt"}, {"expire", "k", "1", "xx"}, {"setex", "k", "1", "w"}, {"set", "k", "w", "ex", "1"}, {"set", "k", "w", "px", "1000"}}
+		probes := []step{{tick: true}, {tick: true}, {argv: []string{"get", "k"}}, {argv: []string{"strlen", "k"}}, {argv: []string{"ttl", "k"}}, {argv: []string{"exists", "k"}}}
+		for _, f := range far {
+			for _, n := range near {
+				progs = append(progs, append([]step{{argv: f}, {argv: n}}, probes...))                                    // shortened: gone after the near deadline
+				progs = append(progs, append([]step{{argv: []string{"set", "k", "v", "ex", "1"}}, {argv: f}}, probes...)) // extended: still there
+			}
+			progs = append(progs, append([]step{{argv: f}, {argv: []string{"expire", "k", "1", "gt"}}}, probes...)) // vetoed: still there
+		}
+		for _, n := range [][]string{{"expire", "l", "1"}, {"expire", "l", "1", "lt"}} {
+			progs = append(progs, []step{{argv: []string{"rpush", "l", "a", "b"}}, {argv: []string{"expire", "l", "100"}}, {argv: n}, {tick: true}, {tick: true},
+				{argv: []string{"llen", "l"}}, {argv: []string{"lrange", "l", "0", "-1"}}, {argv: []string{"exists", "l"}}})
+			progs = append(progs, []step{{argv: []string{"rpush", "l", "a", "b"}}, {argv: []string{"expire", "l", "1"}}, {argv: []string{"expire", "l", "100"}}, {tick: true}, {tick: true},
+				{argv: []string{"llen", "l"}}, {argv: []string{"exists", "l"}}})
+		}
 	}
 
 	// run everything concurrently, starting just after a second boundary
